@@ -462,7 +462,9 @@ impl Display for StandardLinearModel {
 /// * `value` - Coefficient value
 /// * `is_first` - Whether this is the first term in an expression
 pub fn format_var(name: &str, value: f64, is_first: bool) -> String {
-    let sign = if float_lt(value, 0.0) {
+    //exact comparison: the magnitude is printed with abs(), a tolerant test would
+    //silently flip the sign of tiny negative coefficients
+    let sign = if value < 0.0 {
         "- "
     } else if is_first {
         ""
